@@ -219,5 +219,6 @@ func init() {
 	register("C08", func(tier string, r *Rng, emit func(Case)) {
 		genC08Huge(r, emit)
 		genC08(tier, r, emit)
-	}, map[string]runner{"Fmt": runFmt, "Str": runStr, "Exact": runExact})
+		genWidePar2(r, emit)
+	}, map[string]runner{"Fmt": runFmt, "Str": runStr, "Exact": runExact, "Par2": runPar2})
 }
